@@ -2,17 +2,18 @@
    API, their wire forms, and what decoders make of the concatenation.
    input : (op ...)   operations on a growing family of messages (member 0 exists at the start);
            op = (n0 n<t> n<isComment> (x<str> ...)) | (n1 n<t> x<id>) | (n2 n<t> x<type>) | (n3 n<t> z<retry ns>)
+              | (n6 n<t> x<id>) | (n7 n<t> x<type>)  as n1/n2 through UnmarshalText from a buffer that is overwritten afterwards
               | (n4 n<t>)  append m_t.Clone() to the family | (n5 n0)  append a new empty Message
    output: ((x<wire> ...) (event ...) err)  with the events and the final error reported by
            sse.Read over the concatenation; event = (x<id> x<type> x<data>) *)
-From GoSse Require Import Base Lines Fields Queue FieldParser Message MessageApi Whatwg TextLines Run.
+From GoSse Require Import Base Lines Fields Queue FieldParser Message MessageApi Whatwg WhatwgLines TextLines Run.
 Local Open Scope N_scope.
 
 Definition dec_api_op (op : val) : api_op :=
   match as_n (nth_val 0 op) with
   | 0 => OpAppend (as_bool (nth_val 2 op)) (map as_b (as_l (nth_val 3 op)))
-  | 1 => OpSetID (as_b (nth_val 2 op))
-  | 2 => OpSetType (as_b (nth_val 2 op))
+  | 1 | 6 => OpSetID (as_b (nth_val 2 op))      (* 6/7: the value arrives through EventID/EventType.UnmarshalText *)
+  | 2 | 7 => OpSetType (as_b (nth_val 2 op))
   | _ => OpSetRetry (as_z (nth_val 2 op))
   end.
 (* a family member is the list of API operations that built it (a clone starts with its
@@ -39,11 +40,13 @@ Definition enc_read_result (ys : list yield) : val :=
       | [] => VN 0
       end].
 
+(* [interp_lines] is the line-by-line form of the specification interpreter, proved equal to
+   [Whatwg.interp] (WhatwgLines.interp_lines_eq); it is linear in the length of a line *)
 (* the model: encodings of message.go's model; go-sse's own reading = the gosse_read
    instance of the specification interpreter (its equality with the real parser is C01) *)
 Definition run_encode (i : val) : val :=
   let ms := dec_msgs i in
-  match enc_read_result (interp gosse_read [] (concat_wires ms) CleanEOF) with
+  match enc_read_result (interp_lines gosse_read [] (concat_wires ms) CleanEOF) with
   | VL [evs; err] => VL [VL (wires_of ms); evs; err]
   | v => v
   end.
@@ -55,9 +58,9 @@ Record pmsg := mkp { p_id : option bytes; p_type : option bytes; p_data : list b
 Definition p_apply (p : pmsg) (op : val) : pmsg :=
   match as_n (nth_val 0 op) with
   | 0 => if as_bool (nth_val 2 op) then p
-         else mkp (p_id p) (p_type p) (p_data p ++ flat_map text_lines (map as_b (as_l (nth_val 3 op))))
-  | 1 => if no_nlb (as_b (nth_val 2 op)) then mkp (Some (as_b (nth_val 2 op))) (p_type p) (p_data p) else p
-  | 2 => if no_nlb (as_b (nth_val 2 op)) then mkp (p_id p) (Some (as_b (nth_val 2 op))) (p_data p) else p
+         else mkp (p_id p) (p_type p) (p_data p ++ flat_map text_lines_fast (map as_b (as_l (nth_val 3 op))))
+  | 1 | 6 => if no_nlb (as_b (nth_val 2 op)) then mkp (Some (as_b (nth_val 2 op))) (p_type p) (p_data p) else p
+  | 2 | 7 => if no_nlb (as_b (nth_val 2 op)) then mkp (p_id p) (Some (as_b (nth_val 2 op))) (p_data p) else p
   | _ => p
   end.
 Definition p_family (i : val) : list pmsg :=
@@ -89,7 +92,7 @@ Definition holds_encode_gen (nul_rule : bool) (i o : val) : bool :=
   let ps := p_family i in
   let wires := map as_b (as_l (nth_val 0 o)) in
   (* a spec-conforming parser on the bytes the implementation produced *)
-  val_eqb (VL (map enc_event (events_of (interp strict [] (concat wires) CleanEOF))))
+  val_eqb (VL (map enc_event (events_of (interp_lines strict [] (concat wires) CleanEOF))))
           (VL (p_events false nul_rule s_message [] ps))
   (* go-sse's own parser, as observed *)
   && val_eqb (nth_val 1 o) (VL (p_events true nul_rule [] [] ps))
